@@ -7,7 +7,7 @@
    the complete enumeration trees_upto N (kernel-evaluated). *)
 From Coq Require Import List Arith ZArith.
 From PTN Require Import Tree.RTree Tree.Nav Tree.UpdatePath Tree.CachePath Tree.Enum Tree.EnumProofs
-     Sched.TDVP Sched.TDVPProofs Sched.TDVPFresh Sched.TDVPBounded.
+     Sched.TDVP Sched.TDVPProofs Sched.TDVPFresh Sched.TDVPBounded Sched.TDVPUniversal.
 Import ListNotations.
 
 (* ---- the three traces are defined on every tree with >= 2 nodes ---------------------- *)
@@ -73,6 +73,46 @@ Theorem C05_durations_bounded_10 : forall t, In t (trees_upto 10) -> 2 <= size t
      (forall a b f, In (Link a b f) tr \/ In (TwoSite a b f) tr -> adjacent t a b)).
 Proof. exact durations_bounded_10. Qed.
 Print Assumptions C05_durations_bounded_10.
+
+(* ---- ... and the UNIVERSAL statements (every tree with unique identifiers; Sched/TDVPUniversal.v,
+   Tree/EdgeBlock.v): the Link factors of every tree edge sum to one full step, backward ---- *)
+Theorem C05_link_durations_first_order : forall t t' tr, NoDup (ids t) -> trace1_gen t t' = Some tr ->
+  forall p c, In (p, c) (edges t) -> edge_dur p c tr = (-2)%Z.
+Proof. exact trace1_link_durations. Qed.
+Print Assumptions C05_link_durations_first_order.
+
+Theorem C05_link_durations_second_order : forall t tr, NoDup (ids t) -> trace2 t = Some tr ->
+  forall p c, In (p, c) (edges t) -> edge_dur p c tr = (-2)%Z.
+Proof. exact trace2_link_durations. Qed.
+Print Assumptions C05_link_durations_second_order.
+
+(* two-site scheme: +dt in total on every edge, -(degree-1)*dt on every node *)
+Theorem C05_two_site_durations : forall t tr, NoDup (ids t) -> trace2s t = Some tr ->
+  forall p c, In (p, c) (edges t) -> edge_dur p c tr = 2%Z.
+Proof. exact trace2s_two_site_durations. Qed.
+Print Assumptions C05_two_site_durations.
+
+Theorem C05_site_durations_two_site : forall t tr, NoDup (ids t) -> trace2s t = Some tr ->
+  forall x, In x (ids t) -> node_dur x tr = (2 - 2 * Z.of_nat (degree t x))%Z.
+Proof. exact trace2s_site_durations. Qed.
+Print Assumptions C05_site_durations_two_site.
+
+(* the statement of C05_durations_bounded_10 for ALL trees *)
+Theorem C05_durations : forall t, NoDup (ids t) -> 2 <= size t ->
+  (exists tr, trace1 t = Some tr /\
+     (forall x, In x (ids t) -> node_dur x tr = 2%Z) /\
+     (forall p c, In (p, c) (edges t) -> edge_dur p c tr = (-2)%Z) /\
+     (forall a b f, In (Link a b f) tr \/ In (TwoSite a b f) tr -> adjacent t a b)) /\
+  (exists tr, trace2 t = Some tr /\
+     (forall x, In x (ids t) -> node_dur x tr = 2%Z) /\
+     (forall p c, In (p, c) (edges t) -> edge_dur p c tr = (-2)%Z) /\
+     (forall a b f, In (Link a b f) tr \/ In (TwoSite a b f) tr -> adjacent t a b)) /\
+  (exists tr, trace2s t = Some tr /\
+     (forall x, In x (ids t) -> node_dur x tr = (2 - 2 * Z.of_nat (degree t x))%Z) /\
+     (forall p c, In (p, c) (edges t) -> edge_dur p c tr = 2%Z) /\
+     (forall a b f, In (Link a b f) tr \/ In (TwoSite a b f) tr -> adjacent t a b)).
+Proof. exact durations_universal. Qed.
+Print Assumptions C05_durations.
 
 (* ---- cache_fresh: version-stamp invariant, centre, assertions: bounded ------------------ *)
 (* sched_ok t tr: from the constructor's cache (centre on update_path[0]) the trace runs
@@ -144,3 +184,95 @@ Example C05_example_checks : (fresh_check C05_ex, dur_check C05_ex, In C05_ex (t
   NoDup (ids C05_ex) /\ 2 <= size C05_ex.
 Proof. split; [vm_compute; reflexivity|]. split; [repeat constructor; simpl; intuition discriminate|simpl; repeat constructor]. Qed.
 Print Assumptions C05_example_checks.
+
+(* ==== Layer W: the effective site Hamiltonian is E^dagger H E at the diagram level (Contr/Heff.v) ==========================
+   Symbolic arrays carry one wire per axis; tensordot binds equal wires and records glued pairs; the conjugated copy of
+   the state has wires / atoms offset by woff / aoff.  `wf_env woff ket op (Some p) t`: t is the part of the tree behind
+   rid t seen from its neighbour p, state and operator have the same neighbours there (in independent orders), legs =
+   (neighbour legs in the node's own order, open legs), both ends of an edge carry the same wire.  `wf_heff woff ket op t`:
+   the same for the whole tree re-rooted at the updated node rid t.  heff_expected = the <psi|H|psi> network with the ket
+   tensor of the updated node and its conjugate twin removed; rows = conjugate-side legs, columns = ket-side legs, both in
+   the leg order of the updated tensor. *)
+From PTN Require Import TTN.Store Contr.Blocks Contr.Closed Contr.Heff Contr.HeffProofs.
+
+(* every sandwich cache entry (n -> p) built from fresh entries, for children AND parent directions *)
+Theorem C05_env_block_closed : forall woff aoff ket op p t fuel,
+  wf_env woff ket op (Some p) t -> length (rnodes t) <= fuel ->
+  exists g, env_block fuel woff aoff ket op (rid t) p = Some g /\
+    diagram_is g (edge3 woff ket op (rid t, p),
+                  all_atoms3 aoff ket op (rnodes t),
+                  flat_map (edge3 woff ket op) (sub_edges t) ++ inner_bnd3 woff ket op (rnodes t),
+                  open_pairs3 woff ket op (rnodes t)).
+Proof. exact env_block_subtree_closed. Qed.
+Print Assumptions C05_env_block_closed.
+
+(* contract_all_except_node + find_tensor_leg_permutation, given blocks with legs (ket, operator, conjugate):
+   the operator's neighbour order drives the contractions, the state's neighbour order the final leg order *)
+Theorem C05_heff_site_with_axes : forall kn on ot blocks (w y x : id -> wire) (blk : id -> garr) oo oi,
+  NoDup (neighbouring_nodes kn) ->
+  Permutation.Permutation (neighbouring_nodes on) (neighbouring_nodes kn) ->
+  gaxes ot = map y (neighbouring_nodes on) ++ [oo; oi] ->
+  (forall nb, In nb (neighbouring_nodes on) -> aget nb blocks = Some (blk nb) /\ gaxes (blk nb) = [w nb; y nb; x nb]) ->
+  exists g, heff_site_with kn on ot blocks = Some g /\
+    gaxes g = map x (neighbouring_nodes kn) ++ [oo] ++ map w (neighbouring_nodes kn) ++ [oi] /\
+    gatoms g = gatoms ot ++ flat_map (fun nb => gatoms (blk nb)) (neighbouring_nodes on) /\
+    gbnd g = rev (map y (neighbouring_nodes on)) ++ gbnd ot ++ flat_map (fun nb => gbnd (blk nb)) (neighbouring_nodes on) /\
+    gglue g = gglue ot ++ flat_map (fun nb => gglue (blk nb)) (neighbouring_nodes on).
+Proof. exact heff_site_with_axes. Qed.
+Print Assumptions C05_heff_site_with_axes.
+
+(* the site clause of C05: for every tree, every updated node and independent neighbour orders of state and operator *)
+Theorem C05_heff_site_diagram : forall woff aoff ket op t,
+  wf_heff woff ket op t ->
+  exists g, heff_site woff aoff ket op (rid t) = Some g /\ diagram_is g (heff_expected woff aoff ket op t).
+Proof. exact heff_site_correct. Qed.
+Print Assumptions C05_heff_site_diagram.
+
+(* the same with the decidable hypothesis that the harness evaluates on every explored update *)
+Theorem C05_heff_site_checked : forall woff aoff ket op n,
+  wf_heffb woff ket op n = true ->
+  exists t g, tree_at ket n = Some t /\ rid t = n /\ heff_site woff aoff ket op n = Some g /\
+              diagram_is g (heff_expected woff aoff ket op t).
+Proof. exact wf_heffb_correct. Qed.
+Print Assumptions C05_heff_site_checked.
+
+(* the result checker evaluated per instance means the diagram statement *)
+Theorem C05_heff_ok_sound : forall woff aoff ket op n,
+  heff_ok woff aoff ket op n = true ->
+  exists t g, tree_at ket n = Some t /\ heff_site woff aoff ket op n = Some g /\
+              diagram_is g (heff_expected woff aoff ket op t).
+Proof. exact heff_ok_sound. Qed.
+Print Assumptions C05_heff_ok_sound.
+
+Theorem C05_diagram_matches_sound : forall g e, diagram_matches g e = true -> diagram_is g e.
+Proof. exact diagram_matches_sound. Qed.
+Print Assumptions C05_diagram_matches_sound.
+
+(* the link clause, per instance: `link_ok` evaluated on an explored link update (the state holds the link node l between
+   a and b, the operator does not) means that heff_link is the complete network of both sides of the edge with the
+   operator wire of the edge bound and axes = (conjugate copies of the link tensor's legs, the link tensor's legs) *)
+Theorem C05_link_ok_sound : forall woff aoff ket op a b l,
+  link_ok woff aoff ket op a b l = true ->
+  exists ta tb g,
+    tree_from (S (length (nodes ket))) ket (Some l) a = Some ta /\
+    tree_from (S (length (nodes ket))) ket (Some l) b = Some tb /\
+    heff_link woff aoff ket op a b l = Some g /\
+    ewire ket a l = ewire ket l a /\ ewire ket b l = ewire ket l b /\ ewire op a b = ewire op b a /\
+    diagram_is g (map (Nat.add woff) (t_axes ket l) ++ t_axes ket l,
+                  all_atoms3 aoff ket op (rnodes ta ++ rnodes tb),
+                  ewire op a b :: flat_map (edge3 woff ket op) (sub_edges ta ++ sub_edges tb) ++
+                    inner_bnd3 woff ket op (rnodes ta ++ rnodes tb),
+                  open_pairs3 woff ket op (rnodes ta ++ rnodes tb)).
+Proof. exact link_ok_sound. Qed.
+Print Assumptions C05_link_ok_sound.
+
+(* non-vacuity: a 4-node tree, the operator with another child order at the root; every node as target *)
+Definition C05_w_kops := [AddRoot 0 [2;3;2]; AddChild 1 [2;2] 0 0 0; AddChild 2 [3;2;2] 0 0 1; AddChild 3 [2;2] 0 2 1].
+Definition C05_w_oops := [AddRoot 0 [4;5;2;2]; AddChild 2 [4;6;2;2] 0 0 0; AddChild 1 [5;2;2] 0 0 1; AddChild 3 [6;2;2] 0 2 1].
+Example C05_heff_example :
+  let ket := fst (run empty_store C05_w_kops) in
+  let op := fst (run (store_at 1000 100) C05_w_oops) in
+  forallb (fun n => andb (wf_heffb 2000 ket op n) (heff_ok 2000 200 ket op n)) [0; 1; 2; 3] = true /\
+  option_map gaxes (heff_site 2000 200 ket op 2) = Some [2001; 2006; 1006; 1; 6; 1007].
+Proof. vm_compute. split; reflexivity. Qed.
+Print Assumptions C05_heff_example.
